@@ -1258,6 +1258,12 @@ def finish_test(name, inp, period, margins, output, layout, group=None, extra=No
     accepted, ids, vecs = A.engine_run(inp, pairs, variant, extra.get("max_spiral_loops"))
     if extra.get("reforms") not in (None, A.REFORM, [A.REFORM]):
         accepted, ids, vecs = False, {}, {}          # no such reform: the test designates no engine
+    if period is not None:
+        from openfisca_core import periods
+        try:
+            periods.period(period)
+        except Exception:
+            accepted, ids, vecs = False, {}, {}      # the test's period is none: no situation is built
     if form:
         extra["yaml_input"] = short_input(inp, form, period)
     t = {"name": name, "input": inp, "period": period, "layout": layout, "group": group, **margins,
